@@ -62,6 +62,7 @@ type c04World struct {
 	sAddrs []string // client addresses that map to S while all are healthy (hash strategies)
 	probeN int      // probe log entries already fed to the model
 	R      int
+	nf     int // failing rounds so far
 }
 
 func (w *c04World) ctx() string {
@@ -128,7 +129,16 @@ func (w *c04World) reports() bool {
 func (w *c04World) round(kind byte) bool {
 	switch kind {
 	case 'f':
-		w.S.Default = vh.Script{Status: 500, Headers: [][2]string{{"X-Backend", w.S.Name}}}
+		// failing answers come in several shapes; the shape is fixed by the position in the sequence
+		hd := [][2]string{{"X-Backend", w.S.Name}}
+		shapes := []vh.Script{
+			{Status: 500, Headers: hd},
+			{Status: 503, Headers: hd, Interim: []vh.Interim{{Code: 103, Headers: [][2]string{{"Link", "</x>"}}}}},
+			{Status: 502, Headers: hd, Framing: "chunked", Steps: []vh.Step{{Op: "write", N: 3000}}},
+			{Status: 599, Headers: hd, Steps: []vh.Step{{Op: "write", N: 10}}},
+		}
+		w.S.Default = shapes[(w.step+len(w.seq)+w.nf)%len(shapes)]
+		w.nf++
 	case 'u':
 		w.S.Down()
 		defer w.S.Up()
